@@ -4,7 +4,8 @@
    correspondence run against the built binary. *)
 From Coq Require Import Lia.
 From RM Require Import C20.Model C20.Proofs C20.Sinks C20.SinksProofs.
-From RM Require Gen.C20DumpSeq C20.DumpSeq Gen.C20Wiring C20.Wiring.
+From RM Require Gen.C20DumpSeq C20.DumpSeq Gen.C20Wiring C20.Wiring Gen.C20Cli.
+From RM Require Import C20.ClapSpec C20.Clap C20.ClapProofs.
 Open Scope Z_scope.
 
 (* Every flag record is rejected, is the hidden --help-markdown, or has a plan.  [flags] has
@@ -313,6 +314,73 @@ Theorem c20_supplier_kind : forall c,
 Proof. exact supplier_kind. Qed.
 Print Assumptions c20_supplier_kind.
 
+(* ---- round 5: from the argument vector to main()'s flag record (clap's parser over the grammar table that
+   translate/c20_cli.py regenerates from `struct Cli`: CLI, GROUP, DEFAULTS, ARMS = Gen/C20Cli.v) ---- *)
+
+(* `--features`: every value the regenerated value parser lets through has an arm in the regenerated
+   `match &*cli.features { .. , _ => unimplemented!() }`: the default arm is unreachable.  With ignore_case = true on
+   the option (or a possible value without an arm) this statement no longer type-checks against Gen/C20Cli.v. *)
+Theorem c20_features_value_never_unimplemented : forall s,
+  vp_accepts (vp_of_field "features"%str) s = true -> features_match ARMS s <> None.
+Proof. exact features_value_has_arm. Qed.
+Print Assumptions c20_features_value_never_unimplemented.
+
+(* `--verbose`: `LevelFilter::from_str(&v).unwrap()` inside the value parser never fails *)
+Theorem c20_verbose_value_never_unwraps : forall s,
+  vp_accepts (vp_of_field "verbose"%str) s = true -> level_from_str s <> None.
+Proof. exact verbose_value_has_level. Qed.
+Print Assumptions c20_verbose_value_never_unwraps.
+
+(* the class of seeded C20-8, as a theorem: a case-insensitive enumerated parser in front of a case-sensitive match *)
+Theorem c20_ignore_case_reaches_default_arm :
+  exists s, vp_accepts (VPossible ["stable-basic"; "stable-all"; "unstable-all"]%str true) s = true /\
+            features_match [("stable-basic", "stable_basic"); ("stable-all", "stable_all"); ("unstable-all", "unstable_all")]%str s = None.
+Proof. exact ignore_case_reaches_default_arm. Qed.
+Print Assumptions c20_ignore_case_reaches_default_arm.
+
+(* what an accepted command line guarantees, for ANY grammar table: every value in the parsed record went through the
+   value parser of an option of that name, at most one member of the group is present, the required positional is *)
+Theorem c20_parsed_values_validated : forall spec group argv out, parse spec group argv = PParsed out ->
+  Forall (valid_entry spec) out /\ (group_members_present group out <= 1)%nat /\ required_present spec out = true.
+Proof. exact parse_valid. Qed.
+Print Assumptions c20_parsed_values_validated.
+
+(* every argument vector, every environment: the process ends through clap (usage error: status 2, one message on
+   standard error, NOTHING else happens - no sink is opened, no report byte; help / version: status 0, text on standard
+   output, no sink opened - not even the --log-file) or reaches main()'s logic with a flag record *)
+Theorem c20_argv_outcomes : forall pid argv e,
+  (parse CLI GROUP argv = PUsage /\ stackwalk pid argv e = ([ClapMessage false], 2)) \/
+  ((parse CLI GROUP argv = PHelp \/ parse CLI GROUP argv = PVersion) /\ stackwalk pid argv e = ([ClapMessage true], 0)) \/
+  (exists acc f, parse CLI GROUP argv = PParsed acc /\ interpret pid DEFAULTS ARMS (PParsed acc) = CliFlags f /\
+                 stackwalk pid argv e = lift (run f e)).
+Proof. exact stackwalk_cases. Qed.
+Print Assumptions c20_argv_outcomes.
+
+(* never by panic: for every argument vector and environment neither panic site that consumes a parsed value
+   (unwrap in the --verbose parser, unimplemented!() behind --features) is reached; the exit status is 0, 1 or 2, or
+   101 through the one remaining site, --help-markdown's expect on a failing standard output *)
+Theorem c20_argv_never_panics : forall pid argv e,
+  existsb is_cli_panic (fst (stackwalk pid argv e)) = false /\
+  (snd (stackwalk pid argv e) = 0 \/ snd (stackwalk pid argv e) = 1 \/ snd (stackwalk pid argv e) = 2 \/
+   (snd (stackwalk pid argv e) = 101 /\ In (MainEv PanicEv) (fst (stackwalk pid argv e)))).
+Proof. exact argv_never_panics. Qed.
+Print Assumptions c20_argv_never_panics.
+
+(* every sink is opened before the first report byte, in every mode and every environment: in the trace of main() no
+   File::create comes after a printer call (seeded C20-7 moved one behind the human report) *)
+Theorem c20_sinks_opened_before_first_report_byte : forall f e l1 p l2,
+  fst (run f e) = l1 ++ Create p :: l2 -> forall ev, In ev l1 -> is_render ev = false.
+Proof. intros f e. exact (opens_first_spec _ (sinks_opened_before_first_report_byte f e)). Qed.
+Print Assumptions c20_sinks_opened_before_first_report_byte.
+
+(* hence: a --log-file / --cyborg / --output-file path that cannot be created (missing parent, a directory, no
+   permission, a symlink loop) means no report byte on ANY sink, and not a panic *)
+Theorem c20_uncreatable_sink_no_report : forall f e pl p, decide f = Plan pl ->
+  In p (opt_list (f_log_file f) ++ p_creates pl) -> e_create e p <> IoOk ->
+  existsb is_render (fst (run f e)) = false /\ snd (run f e) <> 101.
+Proof. exact uncreatable_sink_no_report. Qed.
+Print Assumptions c20_uncreatable_sink_no_report.
+
 (* ---- non-vacuity ---- *)
 Example c20_nonvacuous_prestate :
   let f := {| f_human := false; f_json := true; f_cyborg := None; f_dump := false; f_help_md := false;
@@ -360,4 +428,23 @@ Example c20_nonvacuous_failures :
   run f (e true false IoOk) = ([Create 1; Diag Logger], 1) /\
   run f (e true true IoErr) = ([Create 1; WriteFailed (File 1) (Json false); Diag Stderr], 1) /\
   run f (e true true IoBrokenPipe) = ([Create 1; WriteFailed (File 1) (Json false)], 0).
+Proof. repeat split. Qed.
+
+Example c20_nonvacuous_argv :
+  let pid := fun s => if str_eqb s "o.txt"%str then 1 else if str_eqb s "c.json"%str then 2 else 3 in
+  let e := {| e_create := fun _ => IoOk; e_read := true; e_process := true; e_write := fun _ _ => IoOk; e_partial := fun _ _ => false |} in
+  let ebad := {| e_create := fun p => if p =? 2 then IoErr else IoOk; e_read := true; e_process := true; e_write := fun _ _ => IoOk; e_partial := fun _ _ => false |} in
+  stackwalk pid ["--cyborg"; "c.json"; "--features=unstable-all"; "--brief"; "a.dmp"; "--output-file"; "o.txt"; "syms"]%str e =
+    ([MainEv (Create 2); MainEv (Create 1); MainEv (Written (File 1) HumanBrief); MainEv (Written (File 2) (Json false))], 0) /\
+  stackwalk pid ["--cyborg"; "c.json"; "a.dmp"]%str ebad = ([MainEv (Diag Stderr)], 1) /\
+  stackwalk pid ["--features"; "Stable-All"; "a.dmp"]%str e = ([ClapMessage false], 2) /\
+  stackwalk pid ["--features=stable-all "; "a.dmp"]%str e = ([ClapMessage false], 2) /\
+  stackwalk pid ["--json"; "--json"; "a.dmp"]%str e = ([ClapMessage false], 2) /\
+  stackwalk pid ["--verbose"; "trace"; "--verbose=trace"; "a.dmp"]%str e = ([ClapMessage false], 2) /\
+  stackwalk pid ["--json"; "--human"; "a.dmp"]%str e = ([ClapMessage false], 2) /\
+  stackwalk pid ["--log-file"; "l.txt"; "--json"; "--human"; "--help"; "--bogus"]%str e = ([ClapMessage true], 0) /\
+  stackwalk pid ["--bogus"; "--help"]%str e = ([ClapMessage false], 2) /\
+  stackwalk pid ["--output-file"; "--json"; "a.dmp"]%str e = ([ClapMessage false], 2) /\
+  stackwalk pid ["--"; "--json"]%str e = ([MainEv (Written Stdout Human)], 0) /\
+  stackwalk pid ["--pretty"; "a.dmp"]%str e = ([MainEv (Diag Logger)], 1).
 Proof. repeat split. Qed.
